@@ -153,7 +153,8 @@ func interpretable(fn *ssa.Function, repoMod string) bool {
 		return true
 	}
 	switch path {
-	case "github.com/bits-and-blooms/bitset", "errors", "strconv", "io", "strings", "bytes", "slices", "sort", "unicode/utf8", "math/bits", "internal/stringslite", "internal/bytealg":
+	case "github.com/bits-and-blooms/bitset", "errors", "strconv", "io",
+		"google.golang.org/grpc/status", "google.golang.org/grpc/internal/status", "google.golang.org/grpc/codes", "strings", "bytes", "slices", "sort", "unicode/utf8", "math/bits", "internal/stringslite", "internal/bytealg":
 		return true
 	case "time":
 		if recv := fn.Signature.Recv(); recv != nil && strings.HasSuffix(recv.Type().String(), "time.Duration") {
